@@ -22,7 +22,9 @@ struct StubDV : DatatypeValidator {
   int compare(const XMLCh* const a, const XMLCh* const b, MemoryManager* const) { XMLCh x = val_of(a), y = val_of(b); return x == y ? 0 : (x < y ? -1 : 1); }
   DatatypeValidator* newInstance(RefHashTableOf<KVStringPair>* const, RefArrayVectorOf<XMLCh>* const, const int, MemoryManager* const) { return 0; }
   const XMLCh* getCanonicalRepresentation(const XMLCh* const raw, MemoryManager* const mm, bool) const {
-    static XMLCh canon[4][2]; static unsigned nx; XMLCh* r = canon[nx & 3]; nx++; r[0] = val_of(raw); r[1] = 0; return r; }      // static storage: the hasher's deallocate() is a no-op in this harness
+    static XMLCh canon[4][2]; static unsigned nx; XMLCh* r = canon[nx & 3]; nx++; r[0] = getBaseValidator() ? raw[0] : val_of(raw); r[1] = 0; return r; }      // static storage: the hasher's deallocate() is a no-op in this harness
+    // (only a ROOT type's canonical form is canonical for the value space: a derived type may spell equal values differently, as xs:integer "7"
+    //  vs xs:decimal "7.0" - so hashing must go through the root type, which is what equality is decided under)
   bool isSerializable() const { return false; } XProtoType* getProtoType() const { return 0; } void serialize(XSerializeEngine&) {}
 };
 #define NDV 3
